@@ -80,7 +80,7 @@ Released == closed => helpers = 0
 
 -------------------------------------------------------------------------------
 (* Part 2: a measured run r =                                                *)
-(*  [outcome, rawLen, produced, wallUs, allocKB, capBytes, leaked]           *)
+(*  [outcome, rawLen, produced, wallUs, allocKB, allowKB, capBytes, leaked]  *)
 (* (lengths in bytes; capBytes = 0 when the format has no intrinsic          *)
 (* dimensions).  Constants of the envelope, calibrated on the unchanged tree *)
 (* with a factor >= 20 and an absolute floor:                                *)
@@ -95,7 +95,9 @@ Min(a, b) == IF a < b THEN a ELSE b
 \* KB of budget for rawLen bytes (rounded up)
 StreamBudgetKB(rawLen) == BudgetBaseKB + Min(rawLen + 1, BudgetCapKB)    \* 1024 * rawLen bytes = rawLen KB
 OutcomeOK(r)  == r.outcome \in {"data", "malformed"}
-AllocOK(r)    == r.allocKB <= StreamBudgetKB(r.rawLen) + SlackKB + (r.produced \div 256)
+\* allowKB: documented working memory of a bounded consumer outside the budget
+\* (the /JBIG2Globals stream is read into memory up to 8 MiB); 0 otherwise
+AllocOK(r)    == r.allocKB <= StreamBudgetKB(r.rawLen) + SlackKB + (r.produced \div 256) + r.allowKB
 BoundedOK(r)  == r.capBytes > 0 => r.produced <= r.capBytes
 \* wall <= a + b * (in + out): in units of 1000 bytes to stay inside 32 bit
 TimeOK(r)     == r.wallUs <= TimeFloorUs + (TimeNsPerByte * ((r.rawLen + r.produced) \div 1000 + 1))
